@@ -29,7 +29,7 @@ def shell_quote(b):
     return "'" + b.decode("latin-1").replace("'", "'\\''") + "'"
 
 
-def diagnose(a, fs, c, f, got, want, prev_contents):
+def diagnose(a, fs, c, f, got, want, inputs_damaged):
     """Mechanism key for a wrong-but-unreported file from the recorded block map."""
     bs = c.blocksize
     name2idx = {n.encode(): i for i, n in enumerate(a.disk_names)}
@@ -61,12 +61,18 @@ def diagnose(a, fs, c, f, got, want, prev_contents):
             if occ is not None:
                 break
         hg = refhash.digest(c.hash, c.hashseed, g, c.hashsize)
-        if occ is not None and len(occ) != len(w):
+        if st == CHG and h == b"\xff" * len(h) and g != w and g.strip(b"\x00") != b"" and not inputs_damaged:
+            # ZERO past hash = "the position was empty before": the rebuilt bytes are whatever parity the unused
+            # stripe still held (parity of freed stripes is never cleared), accepted because they are not zero
+            reasons.add("chg-block-zero-past-hash-rebuilt-from-stale-parity-of-previously-unused-stripe")
+        elif occ is not None and len(occ) != len(w):
             reasons.add("%s-block-past-hash-of-old-occupant-with-different-block-length" % st)
-        elif hg != h and g != w:
-            # neither the old nor the new data: rebuilt from damaged parity, and accepted only because it
-            # does not hash to the recorded past hash (there is no hash of the new data to validate it)
+        elif hg != h and g != w and inputs_damaged:
+            # neither the old nor the new data: rebuilt from damaged parity (or damaged blocks of other disks), and
+            # accepted only because it does not hash to the recorded past hash (no hash of the new data to validate it)
             reasons.add("%s-block-rebuilt-from-damaged-parity-accepted-because-hash-differs-from-past" % st)
+        elif hg != h and g != w:
+            reasons.add("%s-block-wrong-bytes-accepted-although-parity-and-other-disks-are-intact" % st)
         else:
             reasons.add("%s-block-unexplained" % st)
     return "+".join(sorted(reasons)) or "no-block-differs(size?)"
@@ -82,7 +88,7 @@ def run_case(case):
     a, fs, state0, hist, cfg = build_synced_array(rng, "c05", cfg, variant, rounds=rng.randint(0, 1), want_migration=False)
     try:
         # ---- second phase: pending changes and an incomplete / disturbed sync
-        kind = ["complete", "partial", "killed", "testrun", "testrun", "copy", "replace-same-place", "replace-longer"][idx % 8]
+        kind = ["complete", "partial", "killed", "testrun", "testrun", "copy", "replace-same-place", "replace-longer", "killed-delete", "killed-delete"][idx % 10]
         forced_victim = None
         partner = None
         if kind in ("replace-same-place", "replace-longer"):
@@ -113,6 +119,11 @@ def run_case(case):
                     others = [o for o in others if o[1] in fs.entries[o[0]] and fs.entries[o[0]][o[1]][0] == "file" and not fs.links_of(o[0], o[1])]
                     if others:
                         partner = rng.choice(others)
+        elif kind == "killed-delete":
+            # only deletions pending, parity updated, final content never written; new data arrives afterwards
+            cands = [(d, s) for (d, s) in fs.files() if len(fs.entries[d][s][1]) > 0 and not fs.links_of(d, s)]
+            for (d, s) in rng.sample(cands, min(len(cands), rng.randint(1, 2))):
+                fs.remove(d, s)
         else:
             scen.mutate(fs, rng, rng.randint(2, 7), hostile=0.1, maxblocks=4)
         if kind == "copy":
@@ -126,7 +137,7 @@ def run_case(case):
         post = None
         if kind in ("partial", "replace-longer") or (kind == "replace-same-place" and rng.random() < 0.5):
             args += ["-S", str(rng.randint(1, 4)), "-B", str(rng.randint(1, 6))]
-        elif kind == "killed":
+        elif kind in ("killed", "killed-delete"):
             args += ["--test-kill-after-sync"]
         if kind in ("testrun",) or (kind == "replace-same-place" and "-S" not in args):
             # between scan and sync: rewrite / remove / chmod a plain-named file so that its stripes are skipped
@@ -171,6 +182,18 @@ def run_case(case):
                 e = fs.entries[d][s]
                 fs.entries[d][s] = ("file", e[1], mt)
                 fs._remember(d, s, e[1], mt)
+        # ---- optional third phase: after a killed / partial sync, new files land on freed positions and are
+        # stored by a partial sync that never reaches their stripes
+        phase3_new = []
+        if kind in ("killed", "partial", "complete", "killed-delete") and (kind == "killed-delete" or rng.random() < 0.6):
+            for q in range(rng.randint(1, 3)):
+                d3 = rng.choice(a.disks)
+                nm = b"late-%d" % q
+                if scen._clear_path(fs, d3, nm):
+                    fs.write(d3, nm, A.gen_bytes(rng, rng.randint(1, 3 * a.bs), "rand"))
+                    phase3_new.append((d3, nm))
+            r3 = a.cmd("sync", "-E", "-Z", "-S", str(rng.choice([0, 0, 1, 2])), "-B", str(rng.choice([1, 1, 2])), variant=variant)
+            hist.append(("sync3-partial", r3.rc))
         try:
             c = a.load_content()
         except (FileNotFoundError, cnt.DecodeError) as ex:
@@ -180,6 +203,16 @@ def run_case(case):
         ndev = rng.randint(0, len(a.disks) + a.nlev)
         devs = rng.sample([("data", d) for d in a.disks] + [("parity", l) for l in range(a.nlev)], ndev)
         dmg_desc = []
+        if phase3_new and rng.random() < 0.7:
+            for (d3, nm) in phase3_new:
+                if rng.random() < 0.7:
+                    try:
+                        os.unlink(fs.path(d3, nm))
+                        dmg_desc.append(("delete-late-file", a.disk_names[d3]))
+                    except OSError:
+                        pass
+            if rng.random() < 0.6:
+                devs = []
         if forced_victim and rng.random() < 0.8:
             # the replaced file is lost (and usually nothing else)
             try:
@@ -248,6 +281,15 @@ def run_case(case):
         nun = rf.summary("error_unrecoverable")
         nun = int(nun[0]) if nun else 0
         nfiles = 0
+
+        def inputs_dmg(dn_):
+            """did the harness damage parity, or data of a disk other than dn_ (the other inputs of the rebuild)?"""
+            for x in dmg_desc:
+                if x[0] == "parity":
+                    return True
+                if x[0] == "data" and x[1].encode() != dn_:
+                    return True
+            return False
         for f in c.files:
             d = name2idx[c.disk_name(f.disk)]
             dn = c.disk_name(f.disk)
@@ -265,7 +307,7 @@ def run_case(case):
                 got = None
             reported = (dn, f.sub) in unrec
             if (dn, f.sub) in recov and got != want:
-                key = "reported-recovered-with-wrong-bytes/" + (diagnose(a, fs, c, f, got or b"", want, None) if got is not None else "file-missing")
+                key = "reported-recovered-with-wrong-bytes/" + (diagnose(a, fs, c, f, got or b"", want, inputs_dmg(dn)) if got is not None else "file-missing")
                 V.append((key, "%s: %s:%r tagged status:recovered but holds %s" % (label, dn.decode(), f.sub,
                           "other bytes (%d differing)" % sum(1 for x, y in zip(got, want) if x != y) if got is not None else "nothing"), rep))
                 continue
@@ -280,7 +322,7 @@ def run_case(case):
                 # reported, but the damaged file must not stay under its name
                 V.append(("unrecoverable-file-left-under-its-name", "%s: %r reported unrecoverable yet present with wrong bytes" % (label, f.sub), rep))
                 continue
-            key = "wrong-bytes-written-without-report/" + diagnose(a, fs, c, f, got, want, None)
+            key = "wrong-bytes-written-without-report/" + diagnose(a, fs, c, f, got, want, inputs_dmg(dn))
             V.append((key, "%s: %s:%r written by fix with bytes that are not the recorded version and not reported (rc=%s, unrecoverable=%d)" %
                       (label, dn.decode(), f.sub, rf.rc, nun), rep))
         res["counters"]["files_judged"] = nfiles
@@ -319,7 +361,7 @@ def main(tier, seed, replay, jobs, scale):
         import json
         cases = [tuple(json.load(open(replay))["replay"]["case"])]
     else:
-        n = int((240 if tier == "quick" else 3000) * scale)
+        n = int((400 if tier == "quick" else 4000) * scale)
         cases = [(seed, i, tier) for i in range(n)]
     par.absorb(run, par.run_cases(run_case, cases, jobs))
     run.assumptions += ["only detectable damage is injected; hash size 16",
